@@ -200,7 +200,7 @@ pub fn gen_params(info: &MethodInfo, r: &mut Rng, tier: Tier, i: u64, stratify: 
 // streams per input kind
 
 pub fn gen_stream(info: &MethodInfo, p: &Params, r: &mut Rng, len: usize, fault_free: bool, fc: &mut FaultCount) -> Vec<In> {
-	let window = (p.len() as usize).max(1);
+	let window = (p.len().min(5000) as usize).max(1);
 	let mut cfg = FeedCfg::swarm(&mut r.sub("feedcfg"), window, fault_free);
 	let mut rv = r.sub("values");
 	match info.input {
